@@ -6,16 +6,29 @@ import Blue.Proofs.AsIsScan
 import Blue.Proofs.ScanCongr
 import Blue.Proofs.Stack
 import Blue.Proofs.Kvs
+import Blue.Proofs.ScanLive
 /-! # Property C03 — range scans return exactly the live keys in range, in order, matching reads
 
 Property theorems only.  The scan a store performs is the cursor stack
-`Bounds(Pruning(Merging[memtable, immutable memtable, level-0 files…, Concat(level files)…]))`.
+`Bounds(Pruning(Merging[memtable, immutable memtable, Merging[level-0 files…, Concat(level files)…]]))`
+(`KeyValueStore::range_scan`, lsmtk/src/kvs/mod.rs: the tree's own merging cursor is ONE child of the
+store's merging cursor; the memtable children are themselves `BoundsCursor`s over the skiplist, and
+`Tree::range_scan` leaves out the files of levels ≥ 1 whose key range misses the bounds).
+`scan_spec` / `scan_spec_dups` are the flat stack over any table-like children;
+`tree_scan_spec_dups` is the shape of `Tree::range_scan` under the outer wrappers;
+`store_scan_spec_dups` is the nesting the store builds; `scan_unchanged_by_out_of_range_children`
+says that children restricted to the range (however the restriction is computed) change no scan.
 The combinators are modelled once, generically over a record of cursor operations (`Cur`), and
 each is proved *natural* in its children; `scan_spec` composes the per-combinator refinement
 theorems of C11 into the statement the property makes.  The correspondence check runs the
 right-hand side of `scan_spec` — a reference cursor over the live versions in range, computed from
 the *dumped* store state — against `KeyValueStore::range_scan` for seeded bounds and programs
 after every operation of every history.
+
+The right-hand side is a *specification*: `isLive` is characterised by the visibility predicate of
+point reads (`live_iff_visible`, `scan_matches_point_read`), and `inRange` is defined by explicit
+comparisons on the key, not through the bounds-cursor model (`in_range_is_the_interval`; the
+bridge to the cursor's key tests is `in_range_is_bounds_cursor_tests`).
 
 Hypotheses that remain visible: the children behave as sorted tables (from C10/C11 for files and
 from the tree's invariants).  `scan_spec` asks for pairwise distinct `(key, timestamp)` across the
@@ -158,8 +171,11 @@ example :
   rw [e] at h
   exact h
 
-/-- the list a scan shows depends only on the store's *set* of versions — so flush, trivial move
-    and non-GC compaction change no scan, at any timestamp and for all bounds -/
+/-- MODEL FACT (a restatement of `sorted_ext`, not a step theorem): the list `scan_spec` names is a
+    function of the *set* of versions — two strictly sorted lists with the same members are the same
+    list (the hypotheses force `M = M'`, and the proof rewrites).  That flush, trivial moves and
+    non-GC compaction *preserve* the set of versions is not shown here: it is C05
+    (`pipeline_conserves*`) and C06 (`snapshot_complete`), and per run the correspondence check. -/
 theorem scan_depends_only_on_versions {K : Type} [DecidableEq K] {klt : K → K → Bool} (st : StrictTotal klt)
     (M M' : List (Ver K)) (hs : Sorted klt M) (hs' : Sorted klt M') (hsame : ∀ e, e ∈ M ↔ e ∈ M')
     (t : Nat) (tomb : Ver K → Bool) (sb eb : Bound K) :
@@ -167,21 +183,204 @@ theorem scan_depends_only_on_versions {K : Type} [DecidableEq K] {klt : K → K 
       = (M'.filter (isLive M' t tomb)).filter (inRange klt sb eb) :=
   scan_list_congr st M M' hs hs' hsame t tomb sb eb
 
-/-- what `isLive` means: the entry a point read (`read_returns_latest`, C01) returns for its key;
-    a scan and a point read taken on the same state agree -/
+/-- what `isLive` means, one direction (kept under its old name): every entry a scan shows is the
+    entry a point read (`read_returns_latest`, C01) returns for its key; both directions are
+    `live_iff_visible`, and the statement in terms of `load` is `scan_matches_point_read` -/
 theorem live_is_visible {K : Type} [DecidableEq K] (M : List (Ver K)) (t : Nat) (tomb : Ver K → Bool) (e : Ver K)
-    (he : e ∈ M) (h : isLive M t tomb e = true) : IsVisible M e.1 t e ∧ tomb e = false := by
-  unfold isLive at h
-  simp only [Bool.and_eq_true, decide_eq_true_eq, List.all_eq_true, Bool.or_eq_true, Bool.not_eq_true',
-    Bool.and_eq_false_iff, decide_eq_false_iff_not, Bool.not_eq_true'] at h
-  obtain ⟨⟨h1, h2⟩, h3⟩ := h
-  refine ⟨⟨he, rfl, h1, ?_⟩, h3⟩
-  intro e' he' hk ht
-  rcases h2 e' he' with h | h
-  · rcases h with h | h
-    · exact absurd hk h
-    · exact absurd ht h
-  · exact h
+    (he : e ∈ M) (h : isLive M t tomb e = true) : IsVisible M e.1 t e ∧ tomb e = false :=
+  (isLive_iff_visible M t tomb e he).mp h
+
+/-- `isLive` is EXACTLY "the visible version of its key (C01's `IsVisible`) and not a tombstone" -/
+theorem live_iff_visible {K : Type} [DecidableEq K] (M : List (Ver K)) (t : Nat) (tomb : Ver K → Bool) (e : Ver K)
+    (he : e ∈ M) : isLive M t tomb e = true ↔ (IsVisible M e.1 t e ∧ tomb e = false) :=
+  isLive_iff_visible M t tomb e he
+
+/-- membership in the list a scan shows: visible ∧ not a tombstone ∧ key in the interval -/
+theorem scan_shows_iff {K : Type} [DecidableEq K] {klt : K → K → Bool} (M : List (Ver K)) (t : Nat)
+    (tomb : Ver K → Bool) (sb eb : Bound K) (e : Ver K) :
+    e ∈ (M.filter (isLive M t tomb)).filter (inRange klt sb eb)
+      ↔ (IsVisible M e.1 t e ∧ tomb e = false ∧ inRange klt sb eb e = true) :=
+  mem_scan_iff M t tomb sb eb e
+
+/-- **a scan and a point read taken on the same state agree, both ways**: `cs` the components in
+    search order, "newer above" (I2 of C01), `M` any list with the members of their union.  The scan
+    at read timestamp `t` shows `e` iff `load` (the point read of C01, `load_visible`) of `e`'s key
+    at `t` returns `e`, `e` is not a tombstone and its key is in range. -/
+theorem scan_matches_point_read {K : Type} [DecidableEq K] {klt : K → K → Bool} (cs : List (List (Ver K)))
+    (hna : NewerAbove cs) (M : List (Ver K)) (hM : ∀ e, e ∈ M ↔ e ∈ cs.flatten)
+    (t : Nat) (tomb : Ver K → Bool) (sb eb : Bound K) (e : Ver K) :
+    e ∈ (M.filter (isLive M t tomb)).filter (inRange klt sb eb)
+      ↔ (load cs e.1 t = some e ∧ tomb e = false ∧ inRange klt sb eb e = true) :=
+  Blue.Spec.scan_matches_point_read cs hna M hM t tomb sb eb e
+
+/-- the range predicate of the specification, read as a proposition: `start ≤ key ≤ end` with each
+    bound's own strictness (`a ≤ b` is `klt b a = false`) — explicit comparisons, no cursor model -/
+theorem in_range_is_the_interval {K : Type} (klt : K → K → Bool) (sb eb : Bound K) (e : Ver K) :
+    inRange klt sb eb e = true ↔
+      (match sb with | .unbounded => True | .included k => klt e.1 k = false | .excluded k => klt k e.1 = true) ∧
+      (match eb with | .unbounded => True | .included k => klt k e.1 = false | .excluded k => klt e.1 k = true) :=
+  inRange_iff klt sb eb e
+
+/-- bridge lemma: the specification's `inRange` is "neither `belowStart` nor `aboveEnd`" of the key
+    tests the bounds-cursor model performs (`bcfg`) -/
+theorem in_range_is_bounds_cursor_tests {K : Type} [DecidableEq K] (klt : K → K → Bool) (sb eb : Bound K)
+    (e : Ver K) :
+    inRange klt sb eb e = (!(bcfg klt sb eb).belowStart e && !(bcfg klt sb eb).aboveEnd e) :=
+  inRange_eq_cfg klt sb eb e
+
+/-- **children restricted to the range change no scan**: `M` all versions of the store, `M'` what
+    the children hold when each leaves out versions whose key is out of range (memtable children
+    are `BoundsCursor`s; `Tree::range_scan` skips files of levels ≥ 1 that miss the bounds — that its
+    test `compare_bounds_le` leaves out only such files is checked, not proved) -/
+theorem scan_unchanged_by_out_of_range_children {K : Type} [DecidableEq K] {klt : K → K → Bool}
+    (st : StrictTotal klt) (M M' : List (Ver K)) (sb eb : Bound K) (hs : Sorted klt M) (hs' : Sorted klt M')
+    (hsub : ∀ e ∈ M', e ∈ M) (hin : ∀ e ∈ M, inRange klt sb eb e = true → e ∈ M')
+    (t : Nat) (tomb : Ver K → Bool) :
+    (M'.filter (isLive M' t tomb)).filter (inRange klt sb eb)
+      = (M.filter (isLive M t tomb)).filter (inRange klt sb eb) :=
+  scan_list_restrict st M M' sb eb hs hs' hsub hin t tomb
+
+/-- `tree_scan_spec_dups` without its hypothesis `hsorted` (each level's table is one of the family's
+    children, hence sorted: `levels_sorted_of_family`) -/
+theorem tree_scan_spec_dups_of_family {K : Type} [DecidableEq K] {klt : K → K → Bool} (st : StrictTotal klt)
+    (M : List (Ver K × Nat)) (k : Nat) (fam : FamilyW (vlt klt) M k)
+    (t : Nat) (tomb : Ver K → Bool) (sb eb : Bound K) (n : Nat) (hn : (M.map (·.1)).length + 2 ≤ n)
+    {S : Cur (Ver K)} (levels : List (List (S.σ × List (Ver K))))
+    (hfiles : ∀ lvl ∈ levels, ∀ f ∈ lvl, BehEq (SeekAdm klt) S f.1 (RefCur (Ver K)) ⟨f.2, 0⟩)
+    (hne : ∀ lvl ∈ levels, 0 < lvl.length)
+    (hkids : ((levels.map levelTable).map (·.xs)).Perm ((List.range k).map (childList M))) :
+    BehEq (SeekAdm klt)
+      (BoundsC.cur (PruningC.cur (MergingC.cur (ConcatC.cur (LazyC.cur S)) (vlt klt)) (pcfg t tomb) n)
+        (bcfg klt sb eb) n)
+      (BoundsC.new (PruningC.cur (MergingC.cur (ConcatC.cur (LazyC.cur S)) (vlt klt)) (pcfg t tomb) n)
+        (bcfg klt sb eb)
+        (PruningC.new (MergingC.cur (ConcatC.cur (LazyC.cur S)) (vlt klt))
+          (MergingC.new (ConcatC.cur (LazyC.cur S)) (vlt klt) (levels.map levelCursor))))
+      (RefCur (Ver K))
+      ⟨((dedupAdj (M.map (·.1))).filter (isLive (dedupAdj (M.map (·.1))) t tomb)).filter (inRange klt sb eb), 0⟩ :=
+  tree_scan_spec_dups' st M k fam t tomb sb eb n hn levels hfiles hne hkids
+
+/-- **the store's own nesting** `Bounds(Pruning(Merging[mem, imm, Merging[levels]]))`: the tree's
+    merging cursor is one child (`.inr`) of the store's merging cursor next to the memtable cursors
+    (`.inl`; `Vec<Box<dyn Cursor>>` in the code, the tagged union `Cur.sum` here).  The tree's levels
+    are pairwise distinct (`Family`, merged list `Mt` — the outer merge needs each of its children
+    strictly sorted); the outer family may repeat versions (`FamilyW`: the immutable memtable and
+    its level-0 file in the flush window).  Same right-hand side as `scan_spec_dups`. -/
+theorem store_scan_spec_dups {K : Type} [DecidableEq K] {klt : K → K → Bool} (st : StrictTotal klt)
+    (Mt : List (Ver K × Nat)) (kt : Nat) (famT : Family (vlt klt) Mt kt)
+    (M : List (Ver K × Nat)) (k : Nat) (fam : FamilyW (vlt klt) M k)
+    (t : Nat) (tomb : Ver K → Bool) (sb eb : Bound K) (n : Nat) (hn : (M.map (·.1)).length + 2 ≤ n)
+    {Cm S : Cur (Ver K)} (mems : List (Cm.σ × List (Ver K)))
+    (hmems : ∀ m ∈ mems, BehEq (SeekAdm klt) Cm m.1 (RefCur (Ver K)) ⟨m.2, 0⟩)
+    (levels : List (List (S.σ × List (Ver K))))
+    (hfiles : ∀ lvl ∈ levels, ∀ f ∈ lvl, BehEq (SeekAdm klt) S f.1 (RefCur (Ver K)) ⟨f.2, 0⟩)
+    (hne : ∀ lvl ∈ levels, 0 < lvl.length)
+    (hkidsT : ((levels.map levelTable).map (·.xs)).Perm ((List.range kt).map (childList Mt)))
+    (hkids : (mems.map (·.2) ++ [Mt.map (·.1)]).Perm ((List.range k).map (childList M))) :
+    BehEq (SeekAdm klt)
+      (BoundsC.cur (PruningC.cur (MergingC.cur (Cur.sum Cm (TreeCur klt S)) (vlt klt)) (pcfg t tomb) n)
+        (bcfg klt sb eb) n)
+      (BoundsC.new (PruningC.cur (MergingC.cur (Cur.sum Cm (TreeCur klt S)) (vlt klt)) (pcfg t tomb) n)
+        (bcfg klt sb eb)
+        (PruningC.new (MergingC.cur (Cur.sum Cm (TreeCur klt S)) (vlt klt))
+          (MergingC.new (Cur.sum Cm (TreeCur klt S)) (vlt klt) (storeKids mems levels))))
+      (RefCur (Ver K))
+      ⟨((dedupAdj (M.map (·.1))).filter (isLive (dedupAdj (M.map (·.1))) t tomb)).filter (inRange klt sb eb), 0⟩ :=
+  Blue.Spec.store_scan_spec_dups st Mt kt famT M k fam t tomb sb eb n hn mems hmems levels hfiles hne hkidsT hkids
+
+/-! ### non-vacuity of `tree_scan_spec_dups` and `store_scan_spec_dups` -/
+
+/-- a "file": a reference cursor with its table -/
+def fileOf (xs : List (Ver Nat)) : (RefCur (Ver Nat)).σ × List (Ver Nat) := (⟨xs, 0⟩, xs)
+
+theorem fileOf_beh (xs : List (Ver Nat)) :
+    BehEq (SeekAdm natLt) (RefCur (Ver Nat)) (fileOf xs).1 (RefCur (Ver Nat)) ⟨(fileOf xs).2, 0⟩ :=
+  fun _ _ => rfl
+
+/-- three levels: a one-file level `[1@5, 2@3]`, the SAME content again (the flush window), and a
+    two-file level `[1@2] [3@1]` -/
+def lvls : List (List ((RefCur (Ver Nat)).σ × List (Ver Nat))) :=
+  [[fileOf [(1, 5), (2, 3)]], [fileOf [(1, 5), (2, 3)]], [fileOf [(1, 2)], fileOf [(3, 1)]]]
+
+theorem lvls_files : ∀ lvl ∈ lvls, ∀ x ∈ lvl,
+    BehEq (SeekAdm natLt) (RefCur (Ver Nat)) x.1 (RefCur (Ver Nat)) ⟨x.2, 0⟩ := by
+  intro lvl hl x hx
+  simp only [lvls, List.mem_cons, List.not_mem_nil, or_false] at hl
+  rcases hl with rfl | rfl | rfl <;> simp only [List.mem_cons, List.not_mem_nil, or_false] at hx
+  · subst hx; exact fileOf_beh _
+  · subst hx; exact fileOf_beh _
+  · rcases hx with rfl | rfl <;> exact fileOf_beh _
+
+/-- all hypotheses of `tree_scan_spec_dups` (here in the form without `hsorted`) hold on the
+    flush-window family over concatenating cursors over lazy cursors, and the theorem says
+    something -/
+example : BehEq (SeekAdm natLt)
+      (BoundsC.cur (PruningC.cur (MergingC.cur (ConcatC.cur (LazyC.cur (RefCur (Ver Nat)))) (vlt natLt))
+        (pcfg 9 (fun e => e == (2, 3))) 8) (bcfg natLt .unbounded .unbounded) 8)
+      (BoundsC.new (PruningC.cur (MergingC.cur (ConcatC.cur (LazyC.cur (RefCur (Ver Nat)))) (vlt natLt))
+          (pcfg 9 (fun e => e == (2, 3))) 8) (bcfg natLt .unbounded .unbounded)
+        (PruningC.new (MergingC.cur (ConcatC.cur (LazyC.cur (RefCur (Ver Nat)))) (vlt natLt))
+          (MergingC.new (ConcatC.cur (LazyC.cur (RefCur (Ver Nat)))) (vlt natLt) (lvls.map levelCursor))))
+      (RefCur (Ver Nat)) ⟨[(1, 5), (3, 1)], 0⟩ := by
+  have h := tree_scan_spec_dups_of_family natLt_strictTotal flushWindow 3 flushWindow_family 9
+    (fun e => e == (2, 3)) .unbounded .unbounded 8 (by decide) lvls lvls_files (by decide) (by decide)
+  have e : ((dedupAdj (flushWindow.map (·.1))).filter (isLive (dedupAdj (flushWindow.map (·.1))) 9 (fun e => e == (2, 3)))).filter
+      (inRange natLt .unbounded .unbounded) = [(1, 5), (3, 1)] := by decide
+  rw [e] at h
+  exact h
+
+/-- the store in the flush window: memtable `[4@7]`, immutable memtable `[1@5, 2@3]`, and a tree whose
+    level 0 holds the file of that immutable memtable and whose level 1 holds `[1@2] [3@1]` -/
+def treeM : List (Ver Nat × Nat) := [((1, 5), 0), ((1, 2), 1), ((2, 3), 0), ((3, 1), 1)]
+theorem treeM_family : Family (vlt natLt) treeM 2 := ⟨by decide, by decide⟩
+def treeLvls : List (List ((RefCur (Ver Nat)).σ × List (Ver Nat))) :=
+  [[fileOf [(1, 5), (2, 3)]], [fileOf [(1, 2)], fileOf [(3, 1)]]]
+def memKids : List ((RefCur (Ver Nat)).σ × List (Ver Nat)) := [fileOf [(4, 7)], fileOf [(1, 5), (2, 3)]]
+/-- outer family: child 0 = memtable, child 1 = immutable memtable, child 2 = the tree's merged table -/
+def storeM : List (Ver Nat × Nat) :=
+  [((1, 5), 1), ((1, 5), 2), ((1, 2), 2), ((2, 3), 1), ((2, 3), 2), ((3, 1), 2), ((4, 7), 0)]
+theorem storeM_family : FamilyW (vlt natLt) storeM 3 where
+  sorted := by decide
+  owner := by decide
+  child := by
+    intro j hj
+    rcases j with _ | _ | _ | j
+    · decide
+    · decide
+    · decide
+    · omega
+
+/-- `store_scan_spec_dups` on it, bounds `[1, 4)`, `t = 9`, `2@3` a tombstone: the nested stack
+    behaves as the cursor over `[1@5, 3@1]` (key 2 deleted, key 4 out of range, `1@5` shown once) -/
+example : BehEq (SeekAdm natLt)
+      (BoundsC.cur (PruningC.cur (MergingC.cur (Cur.sum (RefCur (Ver Nat)) (TreeCur natLt (RefCur (Ver Nat)))) (vlt natLt))
+        (pcfg 9 (fun e => e == (2, 3))) 9) (bcfg natLt (.included 1) (.excluded 4)) 9)
+      (BoundsC.new (PruningC.cur (MergingC.cur (Cur.sum (RefCur (Ver Nat)) (TreeCur natLt (RefCur (Ver Nat)))) (vlt natLt))
+          (pcfg 9 (fun e => e == (2, 3))) 9) (bcfg natLt (.included 1) (.excluded 4))
+        (PruningC.new (MergingC.cur (Cur.sum (RefCur (Ver Nat)) (TreeCur natLt (RefCur (Ver Nat)))) (vlt natLt))
+          (MergingC.new (Cur.sum (RefCur (Ver Nat)) (TreeCur natLt (RefCur (Ver Nat)))) (vlt natLt)
+            (storeKids memKids treeLvls))))
+      (RefCur (Ver Nat)) ⟨[(1, 5), (3, 1)], 0⟩ := by
+  have h := store_scan_spec_dups natLt_strictTotal treeM 2 treeM_family storeM 3 storeM_family 9
+    (fun e => e == (2, 3)) (.included 1) (.excluded 4) 9 (by decide) memKids
+    (by intro m hm; simp only [memKids, List.mem_cons, List.not_mem_nil, or_false] at hm
+        rcases hm with rfl | rfl <;> exact fileOf_beh _)
+    treeLvls
+    (by intro lvl hl x hx
+        simp only [treeLvls, List.mem_cons, List.not_mem_nil, or_false] at hl
+        rcases hl with rfl | rfl <;> simp only [List.mem_cons, List.not_mem_nil, or_false] at hx
+        · subst hx; exact fileOf_beh _
+        · rcases hx with rfl | rfl <;> exact fileOf_beh _)
+    (by decide) (by decide) (by decide)
+  have e : ((dedupAdj (storeM.map (·.1))).filter (isLive (dedupAdj (storeM.map (·.1))) 9 (fun e => e == (2, 3)))).filter
+      (inRange natLt (.included 1) (.excluded 4)) = [(1, 5), (3, 1)] := by decide
+  rw [e] at h
+  exact h
+
+/-- `scan_matches_point_read` has content: components `[[1@5, 2@3], [1@2, 3@1]]` are "newer above";
+    the scan at `t = 9` shows `1@5` because `load` returns it, and not `1@2` -/
+example : load [[((1 : Nat), 5), (2, 3)], [(1, 2), (3, 1)]] 1 9 = some (1, 5)
+    ∧ NewerAbove [[((1 : Nat), 5), (2, 3)], [(1, 2), (3, 1)]] := by decide
 
 /-- D-1 as a theorem about the composition as it was written: pruning each component before the
     merge lets a deleted key reappear; the repaired composition shows nothing -/
@@ -199,6 +398,14 @@ end Blue.Props.C03
 #print axioms Blue.Props.C03.tree_scan_spec_dups
 #print axioms Blue.Props.C03.scan_depends_only_on_versions
 #print axioms Blue.Props.C03.live_is_visible
+#print axioms Blue.Props.C03.live_iff_visible
+#print axioms Blue.Props.C03.scan_shows_iff
+#print axioms Blue.Props.C03.scan_matches_point_read
+#print axioms Blue.Props.C03.in_range_is_the_interval
+#print axioms Blue.Props.C03.in_range_is_bounds_cursor_tests
+#print axioms Blue.Props.C03.scan_unchanged_by_out_of_range_children
+#print axioms Blue.Props.C03.tree_scan_spec_dups_of_family
+#print axioms Blue.Props.C03.store_scan_spec_dups
 #print axioms Blue.Props.C03.per_component_pruning_resurrects_deleted_key
 #print axioms Blue.Cursor.scan_stack
 #print axioms Blue.Spec.sorted_ext
